@@ -571,6 +571,23 @@ func (p *Parser) ParsingIter() iter.Seq[*ParserReply] {
 		// allow ParseExpression to yield when deep
 		// down the stack (half way through a parse)
 		// and we need more input.
+		//
+		// Once the consumer has stopped (its loop body returned or
+		// broke out) yield must never be called again: the routines
+		// that were paused unwind through here and would otherwise
+		// report their end of input to a consumer that has gone,
+		// which the runtime answers with a panic.
+		consumerGone := false
+		raw := yield
+		yield = func(reply *ParserReply) bool {
+			if consumerGone {
+				return false
+			}
+			if !raw(reply) {
+				consumerGone = true
+			}
+			return !consumerGone
+		}
 		p.yield = yield
 
 		var expr Sexp
